@@ -226,6 +226,14 @@ def _build(obj, state):
 
 
 def eval_program(mod: ast.Module):
+    env = eval_program_env(mod)
+    if "result" not in env:
+        raise ProgramError("the decompiled program never assigns `result`")
+    return env["result"]
+
+
+def eval_program_env(mod: ast.Module) -> Dict[str, Any]:
+    """Run a decompiled program on inert stand-ins; returns its final name bindings."""
     import builtins
 
     env: Dict[str, Any] = {}
@@ -303,9 +311,7 @@ def eval_program(mod: ast.Module):
             ev(st.value)
         else:
             raise ProgramError(f"statement {type(st).__name__} in the decompiled program")
-    if "result" not in env:
-        raise ProgramError("the decompiled program never assigns `result`")
-    return env["result"]
+    return env
 
 
 def same_value(a, b) -> bool:
